@@ -116,6 +116,14 @@ func concPolicy(args []string, out *bufio.Writer) {
 				}(w)
 			}
 			wg.Wait()
+			// the maximum changes at run time: lowered, raised far above the current size, set back — with reads recorded just
+			// before (they must still reach the policy: nothing may be left in the read buffer at the audit)
+			if !big && !stall && r.chance(0.35) {
+				for q := 0; q < 1+r.intn(12); q++ {
+					c.GetIfPresent(r.intn(nkeys))
+				}
+				c.SetMaximum(uint64(pick(r, []int{0, 1, 3, 8, 64, 1024, 5000})))
+			}
 			_, wbFull, _ := otter.VerifDrainState(c)
 			if stall {
 				for {
